@@ -1551,7 +1551,14 @@ class Engine:
             def f(s1, o):
                 if o.s[0] != "ref":
                     raise Unsupported(f"attribute store on {o}")
-                return self.dispatch(s1, o, node, ctx, lambda s2, cname: (self.store_field(s2, o.t, cname, tgt.attr, v, node), k(s2))[1])
+                def store(s2, cname):
+                    if tgt.attr not in R.class_fields(cname):
+                        skey = self.method_key(cname, tgt.attr + "@setter")
+                        if skey:     # assignment to a property: its setter runs
+                            return self.call_contract(s2, skey, [V(Ref(cname), o.t), v], {}, node, lambda s3, _: k(s3), ctx)
+                    self.store_field(s2, o.t, cname, tgt.attr, v, node)
+                    return k(s2)
+                return self.dispatch(s1, o, node, ctx, store)
             return self.ev(tgt.value, st, f, ctx)
         if isinstance(tgt, ast.Tuple):
             if v.s[0] != "tuple" or len(v.t) != len(tgt.elts):
